@@ -32,3 +32,11 @@ m('c10-types-not-deleted', 'mofun/atoms.py', '            self.angle_types = np.
 m('c10-charges-not-deleted', 'mofun/atoms.py', '        self.charges = np.delete(self.charges, indices, axis=0)\n', '', 'C10')
 m('c10-pop-noop', 'mofun/atoms.py', '        del(self[[pos]])', '        del(self, pos)', 'C10')
 m('c10-pop-negative', 'mofun/atoms.py', '        if pos < 0:\n            pos += len(self)\n        del(self[[pos]])', '        del(self[[pos]])', 'C10')
+# ---- C01
+m('c01-rtol-default', 'mofun/mofun.py', 'chk_pattern.positions, rtol=0, atol=atol)', 'chk_pattern.positions, atol=atol)', 'C01')
+m('c01-atol-doubled', 'mofun/mofun.py', 'chk_pattern.positions, rtol=0, atol=atol)', 'chk_pattern.positions, rtol=0, atol=2*atol)', 'C01')
+m('c01-translate-wrong-anchor', 'mofun/mofun.py', 'chk_pattern.translate(atom_positions[axisp1_idx])', 'chk_pattern.translate(atom_positions[axisp2_idx])', 'C01', note='re-check anchored at the wrong atom: rejects everything or accepts wrong poses')
+m('c01-quat-stored-before-second-rotation', 'mofun/mofun.py', '            quats.append(q)\n            chk_pattern = pattern.copy()', '            chk_pattern = pattern.copy()', 'C01', note='no rotation stored')
+m('c01-no-recheck', 'mofun/mofun.py', '            if np.allclose(atom_positions, chk_pattern.positions, rtol=0, atol=atol):\n                good_indices.append(i)', '            good_indices.append(i)', 'C01', note='mirror images and symmetric mis-orderings reported')
+m('c01-mod-wrong', 'mofun/mofun.py', 'match_index_tuples_in_uc = [tuple([near_indices[m] % len(structure) for m in match]) for match in good_match_index_tuples]', 'match_index_tuples_in_uc = [tuple([near_indices[m] % (len(structure) + 1) for m in match]) for match in good_match_index_tuples]', 'C01')
+m('c01-harmless-rename', 'mofun/mofun.py', '            chk_pattern = pattern.copy()\n            chk_pattern.positions = q.apply(chk_pattern.positions)\n            chk_pattern.translate(atom_positions[axisp1_idx])', '            chk_pattern = pattern.copy()\n            chk_pattern.positions = q.apply(chk_pattern.positions)\n            chk_pattern.translate(atom_positions[axisp1_idx])\n            unused_debug_value = 0', 'C01', 'pass')
